@@ -271,13 +271,21 @@ cfg_if! {
             }
         }
 
+        fn has_sub_dir(dir: &Path) -> bool {
+            return match std::fs::read_dir(dir) {
+                Err(_) => false,
+                Ok(entries) => entries.flatten().any(|entry| entry.path().is_dir()),
+            };
+        }
+
         pub fn zip_extract_shim(dir: &Path, zip_file_name: &str) -> Result<bool> {
             let zip_file = dir.join(zip_file_name);
             return match std::fs::read(zip_file) {
                 Err(e) => {
                     // no zip file? -- maybe started out with all the files unzipped? See if there is a .yaml file
                     match find_file_in_dir_that_ends_with_shim(dir, ".yaml") {
-                        None => bail!("{}", e),
+                        // a language that only has regional variants (e.g., zh with only zh/tw) has nothing of its own to unzip: the files come from the fallback
+                        None => if has_sub_dir(dir) {Ok(false)} else {bail!("{}", e)},
                         Some(_file_name) => Ok(false),
                     }
                 },
